@@ -55,6 +55,12 @@ CHECKS['C07'] = ('E-DOM', 'engines/e_dom.py',
     'product model in engines/e_dom.py; layer boundary band 1e-12; periods >= 1.2 layers; images at one period only; layer may be as thick as stale ghosts of the previous update make it',
     'DESIGN.md section 3 E-DOM')
 
+CHECKS['C16'] = ('E-IO', 'engines/e_io.py',
+    'deterministic simulation (history dimension): the simulator plays the integrator (advects inlet, fluid and outlet particles with a seeded velocity history) and calls the real Inlet/Outlet update of each shipped family; token model of the documented transfer rules checked after every update',
+    'seeded search over zone geometries (5 families, 1-3 D, axis-aligned and oblique normals, zone lengths, rows, ghost inlet / ghost outlet, props_to_copy) and velocity histories (uniform, sheared, reversing, several particles crossing in one update, landings within 1e-6 of an interface, overshooting the outlet zone, inactive stages); checks: each emission exactly once with copied values and the original recycled one zone length upstream, each fluid particle past the outlet plane moved exactly once, deletion beyond the far end by the next active update, nothing else created / duplicated / lost / changed, fluid count = initial + entered - left. Sampling, not proof.',
+    'the integrator is a fake; displacement between active updates below the inlet and fluid lengths; 1e-9 band around the code\'s own 1e-6 threshold',
+    'DESIGN.md section 3 E-IO')
+
 PENDING = {}
 
 
